@@ -10,7 +10,7 @@
 (***************************************************************************)
 EXTENDS PacketActions, Json
 
-CONSTANTS Depth, OutDir, HONEST_PCT, MACRO_PCT
+CONSTANTS Depth, OutDir, HONEST_PCT, MACRO_PCT, EDGE_PCT
 
 VARIABLES S, sched, todo
 
@@ -131,6 +131,48 @@ MacroTimeout(S0, c, P) == LET o == Cp(c)
        [a |-> Proto(P, "Timeout"), c |-> c, dt |-> 1, pkt |-> P, ph |-> h,
         nsr |-> IF KIND = "ORDERED" THEN S0.ch[o].cur.nr ELSE 1] >>
 
+(***************************************************************************)
+(* Boundary macros: the receive is executed exactly AT the timeout         *)
+(* (k = 0, must fail) or one height / tick before it (k = 1, last chance), *)
+(* and the timeout is proven exactly at (k = 0) or just before (k = 1,     *)
+(* must fail) the moment the destination reaches the timeout.              *)
+(***************************************************************************)
+EdgeTick(P) == IF P.proto = "v1" THEN P.toT ELSE 2 * P.toT     \* first tick at which the timestamp has elapsed
+
+MacroRecvEdgeH(S0, c, P, k) == LET o == Cp(c)  h == S0.ch[o].h + 1
+                                   m == P.toH - k - 2 - S0.ch[c].h IN
+    << Blk(o, 1) >> \o Rep(Blk(c, 1), m) \o
+    << Upd(c, h), [a |-> Proto(P, "Recv"), c |-> c, dt |-> 1, pkt |-> P, ph |-> h] >>
+
+MacroRecvEdgeT(S0, c, P, k) == LET o == Cp(c)  h == S0.ch[o].h + 1
+                                   d == EdgeTick(P) - k - (S0.now + 2) IN
+    << Blk(o, 1), Upd(c, h), [a |-> Proto(P, "Recv"), c |-> c, dt |-> d, pkt |-> P, ph |-> h] >>
+
+MacroTimeoutEdgeH(S0, c, P, k) == LET o == Cp(c)
+                                      n == P.toH - k - S0.ch[o].h
+                                      h == S0.ch[o].h + n IN
+    Rep(Blk(o, 1), n) \o
+    << Upd(c, h), [a |-> Proto(P, "Timeout"), c |-> c, dt |-> 1, pkt |-> P, ph |-> h,
+                   nsr |-> IF KIND = "ORDERED" THEN S0.ch[o].cur.nr ELSE 1] >>
+
+MacroTimeoutEdgeT(S0, c, P, k) == LET o == Cp(c)
+                                      d == EdgeTick(P) - k - S0.now
+                                      h == S0.ch[o].h + 1 IN
+    << Blk(o, d), Upd(c, h), [a |-> Proto(P, "Timeout"), c |-> c, dt |-> 1, pkt |-> P, ph |-> h,
+                              nsr |-> IF KIND = "ORDERED" THEN S0.ch[o].cur.nr ELSE 1] >>
+
+EdgeMacros(S0) ==
+    UNION { UNION {
+         { MacroRecvEdgeH(S0, c, P, k) : P \in { Q \in PendingRecv(S0, c) : Q.proto = "v1" /\ Q.toH # 0
+                                                   /\ Q.toH - k - 2 - S0.ch[c].h \in 0..8 } }
+    \cup { MacroRecvEdgeT(S0, c, P, k) : P \in { Q \in PendingRecv(S0, c) : Q.toT # 0
+                                                   /\ EdgeTick(Q) - k - (S0.now + 2) \in 1..40 } }
+    \cup { MacroTimeoutEdgeH(S0, c, P, k) : P \in { Q \in PendingTimeout(S0, c) : Q.proto = "v1" /\ Q.toH # 0
+                                                   /\ Q.toH - k - S0.ch[Cp(c)].h \in 1..8 } }
+    \cup { MacroTimeoutEdgeT(S0, c, P, k) : P \in { Q \in PendingTimeout(S0, c) : Q.toT # 0
+                                                   /\ EdgeTick(Q) - k - S0.now \in 1..40 } }
+      : k \in {0, 1} } : c \in Chains }
+
 Macros(S0) ==
     UNION { { MacroRecv(S0, c, P) : P \in PendingRecv(S0, c) }
             \cup { MacroAck(S0, c, P) : P \in PendingAck(S0, c) }
@@ -146,7 +188,8 @@ Next ==
     /\ Len(sched) < Depth
     /\ Bounded(S)
     /\ \E roll \in { RandomElement(1..100) } :
-       \E ms \in { IF todo = <<>> /\ roll <= MACRO_PCT THEN Macros(S) ELSE {} } :
+       \E ms \in { IF todo = <<>> /\ roll <= MACRO_PCT
+                   THEN (IF roll <= EDGE_PCT /\ EdgeMacros(S) # {} THEN EdgeMacros(S) ELSE Macros(S)) ELSE {} } :
        \E plan \in { IF todo # <<>> THEN todo ELSE IF ms # {} THEN RandomElement(ms) ELSE <<Pick(S)>> } :
        LET a == Head(plan)
            r == Step(S, a)
